@@ -214,27 +214,34 @@ Definition strip_eol (l : bytes) : bytes :=
   | _ => l
   end.
 
+(* "\r\n" straddling the buffer: the '\r' is put back *)
+Definition unread_cr (frag : bytes) (b : brd) : bytes * brd :=
+  match rev frag with
+  | y :: r => if (y =? 13)%N then (rev r, mkBr (13%N :: b_buf b) (b_err b) (b_c b)) else (frag, b)
+  | [] => (frag, b)
+  end.
+
+Definition oapp (acc : option bytes) (l : bytes) : bytes :=
+  match acc with Some a => a ++ l | None => l end.
+
 Fixpoint text_line (fuel : nat) (acc : option bytes) (b : brd) : rs_res :=
   match fuel with
   | O => RsFuel
   | S f =>
       match read_slice (S f) 10 b with
       | RsFuel => RsFuel
-      | RsOk frag EBufFull b' =>
-          (* "\r\n" straddling the buffer: the '\r' is put back *)
-          let '(frag', b'') :=
-            match rev frag with
-            | 13%N :: r => (rev r, mkBr (13%N :: b_buf b') (b_err b') (b_c b'))
-            | _ => (frag, b')
-            end in
-          text_line f (Some (match acc with Some a => a ++ frag' | None => frag' end)) b''
-      | RsOk [] e b' =>
+      | RsOk frag e b' =>
           match e with
-          | ENone => RsOk (match acc with Some a => a | None => [] end) ENone b'
-          | _ => RsOk [] e b'
+          | EBufFull => let '(frag', b'') := unread_cr frag b' in text_line f (Some (oapp acc frag')) b''
+          | _ =>
+              match frag with
+              | [] => match e with
+                      | ENone => RsOk (oapp acc []) ENone b'
+                      | _ => RsOk [] e b'
+                      end
+              | _ => RsOk (oapp acc (strip_eol frag)) ENone b'
+              end
           end
-      | RsOk frag _ b' =>
-          RsOk (match acc with Some a => a ++ strip_eol frag | None => strip_eol frag end) ENone b'
       end
   end.
 
@@ -377,10 +384,10 @@ Definition handle_tftp (fuel : nat) (c : conn) : hres :=
             end
         | RsOk _ _ b2 => mkH Returned (b_c b2) res0
         end in
-      match nth 1 pt 0%N with
-      | 1%N => two 5%N
-      | 2%N => two 4%N
-      | 3%N =>
+      let op := nth 1 pt 0%N in
+      if (op =? 1)%N then two 5%N
+      else if (op =? 2)%N then two 4%N
+      else if (op =? 3)%N then
           let '(_, e2, b2) := bread b1 2 in
           match e2 with
           | ENone =>
@@ -391,8 +398,7 @@ Definition handle_tftp (fuel : nat) (c : conn) : hres :=
               end
           | _ => mkH Returned (b_c b2) res0
           end
-      | _ => mkH Returned (b_c b1) res0
-      end
+      else mkH Returned (b_c b1) res0
   | _ => mkH Returned (b_c b1) res0
   end.
 
